@@ -167,5 +167,5 @@ func genValue(rt *rapid.T) valueCase {
 
 // TestValueRandom: rapid-drawn contents (and lengths beyond 255).
 func TestValueRandom(t *testing.T) {
-	checkRounds(t, "TestValueRandom", vh.N(20000, 600000), genValue, runValue)
+	checkRounds(t, "TestValueRandom", vh.N(60000, 800000), genValue, runValue)
 }
